@@ -136,7 +136,7 @@ func c04Record(c *seedCase) {
 
 // seedPair draws (mnemonic, passphrase).
 func seedPair(rt *rapid.T) (string, string, string) {
-	shape := rapid.SampledFrom([]string{"ustring", "ustring", "valid-mnemonic", "damaged-mnemonic", "long", "empty-m", "mark-first", "huge", "block-boundary", "low-runes", "boundary-shift"}).Draw(rt, "shape")
+	shape := rapid.SampledFrom([]string{"ustring", "ustring", "valid-mnemonic", "damaged-mnemonic", "long", "empty-m", "mark-first", "huge", "block-boundary", "low-runes", "boundary-shift", "marks-at-boundary", "high-expansion"}).Draw(rt, "shape")
 	var m, p string
 	p = rapid.OneOf(gen.UString(6), rapid.Just(""), rapid.Just("TREZOR"), rapid.StringN(0, 20, -1)).Draw(rt, "p")
 	switch shape {
@@ -176,6 +176,20 @@ func seedPair(rt *rapid.T) (string, string, string) {
 		// handled by the caller (needs two pairs); here: strings containing the salt tag itself
 		m = gen.UString(3).Draw(rt, "m") + rapid.SampledFrom([]string{"mnemonic", "mnemoni", "nemonic", ""}).Draw(rt, "tag") + gen.UString(2).Draw(rt, "m2")
 		p = rapid.SampledFrom([]string{"mnemonic", "c", ""}).Draw(rt, "ptag") + p
+	case "marks-at-boundary":
+		// the passphrase ends in a combining mark and the mnemonic begins with one (any classes):
+		// normalising the two in one buffer would reorder marks across the boundary
+		marks := []rune{0x0301, 0x0323, 0x0316, 0x0327, 0x05b0, 0x05bc, 0x0307, 0x3099, 0x0345, 0x031b, 0x0f74}
+		m = string(rapid.SampledFrom(marks).Draw(rt, "m-first")) + gen.UString(3).Draw(rt, "m")
+		p = rapid.SampledFrom([]string{"pass", "", "\u00e9", "x\u0323"}).Draw(rt, "p-head") + rapid.SampledFrom([]string{"\u0301", "\u00e9", "\u0323\u0301", "\u1e69", "\u05bc"}).Draw(rt, "p-last")
+		if rapid.Bool().Draw(rt, "swap") {
+			m, p = p, m
+		}
+	case "high-expansion":
+		m = gen.HighExpansionString().Draw(rt, "m")
+		if rapid.Bool().Draw(rt, "hx-p") {
+			p = gen.HighExpansionString().Draw(rt, "hp")
+		}
 	case "low-runes":
 		m = gen.LowString().Draw(rt, "m")
 		if rapid.Bool().Draw(rt, "low-p") {
